@@ -460,16 +460,16 @@ func vfRetain(en *vfStressEnv, s *vfScen, o *vfScenOut) {
 			time.Sleep(w)
 		}
 	}
-	exchange(req(50, seq))                   // R1
+	exchange(req(50, seq)) // R1
 	at(W * 7 / 10)
-	exchange(req(50, seq))                   // duplicate of R1: restarts nothing, must not arm anything that fires later
+	exchange(req(50, seq)) // duplicate of R1: restarts nothing, must not arm anything that fires later
 	c1 := vfCreates(en.st.k, &log, seid, 50)
 	at(W * 13 / 10)
 	tR2 := time.Now()
-	exchange(req(51, seq))                   // R2: R1's window has elapsed, this is a new request
+	exchange(req(51, seq)) // R2: R1's window has elapsed, this is a new request
 	c2 := vfCreates(en.st.k, &log, seid, 51)
 	at(W * 19 / 10)
-	_, okd := exchange(req(51, seq))          // duplicate of R2, well inside R2's window
+	_, okd := exchange(req(51, seq)) // duplicate of R2, well inside R2's window
 	late := time.Since(tR2)
 	c3 := vfCreates(en.st.k, &log, seid, 51)
 	o.Note = fmt.Sprintf("W=%v creates(R1)=%d creates(R2)=%d after-duplicate=%d duplicate-answered=%v %v after R2", W, c1, c2, c3, okd, late)
